@@ -81,6 +81,15 @@ Expect(s, ev) ==
          [st |-> s,
           ok |-> ev.panic = "" /\ Len(ev.tt) = 64 /\ (\A j \in 0..63 : ev.tt[j + 1] = S3!TRot(j)) /\ ev.iv = S3!IV,
           why |-> IF ev.iv # S3!IV THEN "sm3: IV" ELSE "sm3: Tj rotations"]
+    [] ev.op = "tab.fiat" ->
+         \* constants inside the field code: the divstep precomputation is ((p+1)/2)^741 in Montgomery
+         \* form (741 = (49*256+57) div 17 iterations), the Montgomery one is 2^256 mod p
+         LET half == BN!Norm(BN!Mod(BN!Mul(BN!Add(C!P, <<1>>), BN!ModInv(<<2>>, C!P)), C!P))
+             pc == BN!ModMul(BN!ModExp(half, BN!FromInt(741), C!P), R256, C!P)
+         IN [st |-> s,
+             ok |-> ev.panic = "" /\ ev.divstep_precomp = BN!ToBytes(pc, 32) /\ ev.one_raw = BN!ToBytes(BN!Mod(R256, C!P), 32),
+             why |-> IF ev.divstep_precomp # BN!ToBytes(pc, 32) THEN "fiat: divstep precomputation constant"
+                     ELSE "fiat: Montgomery one"]
     [] ev.op = "tab.curve" ->
          [st |-> s,
           ok |-> /\ ev.panic = "" /\ ev.b = C!B /\ ev.g = <<4>> \o C!Gx \o C!Gy /\ ev.n = C!Nn
